@@ -30,11 +30,27 @@ BOUNDARY_STRINGS = ["", "\n", "a\n\n", "a\n", "---", "...", "a\n...\nb", "a\n---
                     "\u2028", "\x85", "a\r\n", "\ufeff"]
 
 
-def dumpers(safe=True):
+_path_dumpers = {}
+
+
+def dumpers(safe=True, customised=False):
     import yaml
     out = [("py", yaml.SafeDumper if safe else yaml.Dumper)]
     if have_c():
         out.append(("c", yaml.CSafeDumper if safe else yaml.CDumper))
+    if customised:
+        # application dumpers that use path resolvers: the resolver's depth stack is walked for every node and every alias,
+        # in every document of a stream
+        if not _path_dumpers:
+            for name, base in [("py-path", yaml.SafeDumper)] + ([("c-path", yaml.CSafeDumper)] if have_c() else []):
+                D = type("C12PathDumper", (base,), {})
+                D.add_path_resolver("!c12-item", [None], str)
+                D.add_path_resolver("!c12-key-k", ["k"], str)
+                D.add_path_resolver("!c12-deep", [None, None], dict)
+                D.add_path_resolver("!c12-first", [(dict, None), (list, 0)])
+                D.add_path_resolver("!c12-root", [], list)
+                _path_dumpers[name] = D
+        out += sorted(_path_dumpers.items())
     return out
 
 
@@ -116,7 +132,7 @@ def eval_values(case):
         cl.add("opts:non-default")
     failures = []
     evals = 0
-    for dname, D in dumpers():
+    for dname, D in dumpers(customised=True):
         def produce(k, D=D):
             return decode(yaml.dump_all([gv.build(bp)[0] for bp in bps[:k]], Dumper=D, **opts), opts)
         try:
@@ -511,7 +527,7 @@ def _c_fold_class(arm, case):
 
 def known_class(arm, case, key):
     parts = key.split(":")
-    c_emitter = len(parts) > 1 and (parts[1].startswith("c>") or parts[1] in ("c", "nodes-c", "events-c"))
+    c_emitter = len(parts) > 1 and (parts[1].startswith(("c>", "c-path>")) or parts[1] in ("c", "c-path", "nodes-c", "events-c"))
     if not c_emitter:
         return None
     if _first_root_is_empty_implicit_plain(arm, case) and (
